@@ -9,6 +9,8 @@ Section R.
 Variable H : Z -> Z -> Z.
 Variable fh : Z -> Z.
 Hypothesis H_inj : forall a b a' b', H a b = H a' b' -> a = a' /\ b = b'.
+Variable parent : Z -> Z.
+Variable g : Z.
 Variable p : Z.
 Variable c : lcfg.
 Variable tfilt : Z -> Z.
@@ -18,20 +20,30 @@ Notation thd := (thd H fh).
 Notation tcps := (tcps H fh).
 Notation tmsg := (tmsg H fh).
 Notation committed_true := (committed_true H fh).
-Notation linv := (linv H fh p c).
+Notation linv := (linv H fh parent g p c).
 Notation cps_true := (cps_true H fh).
 
 (* ---------- the lists ---------- *)
+Lemma refetch_false s lastH lastX :
+  refetch_cond c s lastH lastX = false ->
+  (min_checkpoint_height (l_cache s) <? lastH) = false /\
+  (c_height_only c = false -> l_cache_stop s = snd (best c lastH lastX)).
+Proof.
+  unfold refetch_cond. intros Hr. apply orb_false_iff in Hr as [Hm Hh]. split; [done|].
+  intros Ho. rewrite Ho in Hh. cbn in Hh. apply negb_false_iff, Z.eqb_eq in Hh. done.
+Qed.
+
 Lemma lists_iff s d : linv s -> hon_cp H fh p c s d -> INTERVAL <= tipH s ->
   (fst (lists_of c s (tipH s) (tipX s) d) = true \/ l_cache_bl s = abl (l_a s)) ->
   forall l, In (p, l) (snd (lists_of c s (tipH s) (tipX s) d)) <-> l = tcps (abl (l_a s)) (tipH s).
 Proof.
   intros Hinv Hcp Ht Hfresh. unfold hon_cp in Hcp. unfold lists_of in *. cbn [fst snd] in *.
-  destruct (min_checkpoint_height (l_cache s) <? tipH s) eqn:Er.
+  destruct (refetch_cond c s (tipH s) (tipX s)) eqn:Er.
   - by apply Hcp.
   - destruct Hfresh as [Hf|Hf]; [discriminate|].
-    destruct (li_cache _ _ _ _ _ Hinv) as [Hc|[Hc _]].
-    + rewrite Hc in Er. cbn in Er. unfold INTERVAL in *. lia.
+    destruct (refetch_false _ _ _ Er) as [Em _].
+    destruct (li_cache _ _ _ _ _ _ _ Hinv) as [Hc|[Hc _]].
+    + rewrite Hc in Em. cbn in Em. unfold INTERVAL in *. lia.
     + intros l. rewrite Hc, Hf. unfold tipH, hlen. done.
 Qed.
 
@@ -87,7 +99,7 @@ Lemma hon_serves s d :
                    (tcps (abl (l_a s)) (tipH s)) tfilt.
 Proof.
   intros Hinv Hph Ht Hh j Hj Hfd. cbv zeta.
-  destruct (li_chain _ _ _ _ _ Hinv) as [Hnd Hlen].
+  destruct (li_chain _ _ _ _ _ _ _ Hinv) as [Hnd Hlen].
   set (a := l_a s) in *. set (bl := abl a) in *.
   assert (HtH : tipH s = zlen bl - 1) by reflexivity.
   assert (Hjl : Z.of_nat j < tipH s / INTERVAL).
@@ -124,23 +136,25 @@ Lemma filter_ban_In (conn bs : list Z) q :
   In q (List.filter (fun q => negb (mem q bs)) conn) <-> In q conn /\ ~ In q bs.
 Proof. rewrite filter_In, negb_true_iff, mem_false. done. Qed.
 
-Lemma attempt_with_inv s d refetch cache cbl flag s' out :
+Lemma attempt_with_inv s d refetch cache cst cbl flag s' out :
   linv s -> hon_hdrs H fh p c tfilt s d -> hon_arrs H fh p c s d ->
   peer_hard_bad (c_hard c) (tcps (abl (l_a s)) (tipH s)) = false ->
   eff_phase s <> PTip -> INTERVAL <= tipH s ->
   snd (lists_of c s (tipH s) (tipX s) d) = cache ->
   (forall l, In (p, l) cache <-> l = tcps (abl (l_a s)) (tipH s)) ->
-  (cache = [] \/ cbl = abl (l_a s)) ->
-  attempt_with H c s (tipH s) (tipX s) d refetch cache cbl flag = (s', out) ->
+  (cache = [] \/ (cbl = abl (l_a s) /\ (c_height_only c = false -> cst = tipX s))) ->
+  attempt_with H c s (tipH s) (tipX s) d refetch cache cst cbl flag = (s', out) ->
   linv s' /\ l_flag s' = flag.
 Proof.
   intros Hinv Hhd Har Hhard Hph Ht Hsnd Hiff Hcbl Hatt.
-  destruct Hinv as [[Hnd Hlen] Htrue Hgen Hnb Hcb Hcache Hleg Hcp Hphase].
+  destruct Hinv as [[Hnd Hlen] Hpar Hhead Htrue Hgen Hnb Hcb Hcache Hleg Hcp Hphase].
   set (a := l_a s) in *. set (bl := abl a) in *.
   assert (HtH : tipH s = zlen bl - 1) by reflexivity.
   assert (Hcache' : cache = [] \/
-           ((forall l, In (p, l) cache <-> l = tcps cbl (zlen cbl - 1)) /\ 1 <= zlen cbl - 1)).
-  { destruct Hcbl as [->| ->]; [by left|right]. split; [|unfold INTERVAL in *; lia].
+           ((forall l, In (p, l) cache <-> l = tcps cbl (zlen cbl - 1)) /\ 1 <= zlen cbl - 1 /\
+            NoDup cbl /\ parent_ok parent cbl /\ head cbl = Some g /\
+            (c_height_only c = false -> cst = default 0 (last cbl)))).
+  { destruct Hcbl as [->|[-> Hcst]]; [by left|right]. split; [|split; [unfold INTERVAL in *; lia|done]].
     intros l. rewrite Hiff. by rewrite HtH. }
   unfold attempt_with in Hatt. rewrite Hleg in Hatt. fold a in Hatt.
   destruct (refetch && (length cache =? 0)%nat) eqn:E0.
@@ -157,7 +171,8 @@ Proof.
               Hin Huniq Hhard Hlens Hhs ER0) as (Hpb & Hagree & _).
   cbn [do_ban l_conn l_banned] in Hatt.
   assert (Hfail : forall ph,
-    linv {| l_a := a; l_ph := PWait; l_cache := []; l_conn := List.filter (fun q => negb (mem q bans)) (l_conn s);
+    linv {| l_a := a; l_ph := PWait; l_cache := []; l_cache_stop := cst;
+            l_conn := List.filter (fun q => negb (mem q bans)) (l_conn s);
             l_banned := l_banned s ++ bans; l_synced := l_synced s; l_panic := false; l_cache_bl := [];
             l_flag := ph |}).
   { intros ph. constructor; cbn; try done.
@@ -185,9 +200,7 @@ Proof.
                   Hnd (proj2 Hlen) Htrue Hgood Hgen) as Hs. rewrite EG in Hs. cbn [fst] in Hs. apply Hs.
     intros qs ar ci stop e Hq Hin' Hpeer Hz Hix. apply filter_In in Hin' as [Hin' _].
     eapply (Har x l qs ar ci stop e); try done. by rewrite ER. }
-  split; [|done]. constructor; cbn; try done.
-  - by rewrite Hbl'.
-  - by rewrite Hbl'.
+  split; [|done]. constructor; cbn; rewrite ?Hbl'; try done.
   - rewrite !in_app_iff. tauto.
   - intros q Hq. apply filter_ban_In in Hq as [Hq Hqb2]. apply filter_ban_In in Hq as [Hq Hqb].
     rewrite !in_app_iff. specialize (Hcb q Hq). tauto.
@@ -208,9 +221,9 @@ Lemma tip_round_inv s d s' out :
   tip_round H (set_ph s PTip) d = (s', out) -> linv s' /\ l_flag s' = l_flag s.
 Proof.
   intros Hinv Hph Hhd Htr.
-  destruct Hinv as [[Hnd Hlen] Htrue Hgen Hnb Hcb Hcache Hleg Hcp Hphase].
+  destruct Hinv as [[Hnd Hlen] Hpar Hhead Htrue Hgen Hnb Hcb Hcache Hleg Hcp Hphase].
   set (a := l_a s) in *. set (bl := abl a) in *.
-  unfold tip_round in Htr. cbn [set_ph l_a l_conn l_cache l_banned l_synced l_cache_bl l_flag] in Htr.
+  unfold tip_round in Htr. cbn [set_ph l_a l_conn l_cache l_cache_stop l_banned l_synced l_cache_bl l_flag] in Htr.
   fold a in Htr.
   destruct (zlen (afl a) =? zlen (abl a)) eqn:Eeq.
   { injection Htr as <- <-. split; [|done]. constructor; cbn; done. }
@@ -241,7 +254,7 @@ Proof.
   rewrite EU in Hpb, Hw. cbn [fst snd] in Hpb, Hw.
   cbn [do_ban l_conn l_banned] in Htr.
   assert (Hsame : forall ph fl,
-    linv {| l_a := a; l_ph := PTip; l_cache := l_cache s;
+    linv {| l_a := a; l_ph := PTip; l_cache := l_cache s; l_cache_stop := l_cache_stop s;
             l_conn := List.filter (fun q => negb (mem q bans)) (l_conn s);
             l_banned := l_banned s ++ bans; l_synced := l_synced s; l_panic := ph;
             l_cache_bl := l_cache_bl s; l_flag := fl |}).
@@ -261,9 +274,7 @@ Proof.
   - unfold tm, LoopSpec.tmsg. cbn [m_stop]. fold bl in Hz. rewrite Hz. cbn [default].
     etrans; [exact (zget_index bl _ _ Hnd (proj2 Hlen) Hz)|]. f_equal. unfold hlen, zlen, fhh, bl in *. lia.
   - unfold hlen, zlen, fhh, bl in *. lia.
-  - constructor; cbn; try done.
-    + by rewrite Hbl'.
-    + by rewrite Hbl'.
+  - constructor; cbn; rewrite ?Hbl'; try done.
     + rewrite in_app_iff. tauto.
     + intros q Hq. apply filter_ban_In in Hq as [Hq Hqb]. rewrite in_app_iff. specialize (Hcb q Hq). tauto.
 Qed.
@@ -280,7 +291,7 @@ Lemma resolve_good s d cache bans x l :
   cps_true (abl (l_a s)) (x :: l) /\ ~ In p bans.
 Proof.
   intros Hinv Hhd Hhard Hph Ht Hsnd Hiff ER.
-  pose proof Hinv as [[Hnd Hlen] Htrue Hgen Hnb Hcb Hcache Hleg Hcp Hphase].
+  pose proof Hinv as [[Hnd Hlen] Hpar Hhead Htrue Hgen Hnb Hcb Hcache Hleg Hcp Hphase].
   set (a := l_a s) in *. set (bl := abl a) in *.
   assert (HtH : tipH s = zlen bl - 1) by reflexivity.
   pose proof ER as ER0. unfold resolve_of in ER0. rewrite Hsnd in ER0. fold a in ER0.
@@ -304,8 +315,8 @@ Proof.
 Qed.
 
 (* ---------- the ghost flag ---------- *)
-Lemma attempt_with_flag s lastH lastX d refetch cache cbl flag s' out :
-  attempt_with H c s lastH lastX d refetch cache cbl flag = (s', out) -> l_flag s' = flag.
+Lemma attempt_with_flag s lastH lastX d refetch cache cst cbl flag s' out :
+  attempt_with H c s lastH lastX d refetch cache cst cbl flag = (s', out) -> l_flag s' = flag.
 Proof.
   unfold attempt_with.
   destruct (refetch && (length cache =? 0)%nat); [by intros [= <- _]|].
@@ -334,16 +345,16 @@ Proof.
   destruct (match l_ph s with PDecide => decide_ph s | ph => ph end) as [|lh lx| |].
   - unfold wait_round. destruct (negb (wait_cond s)); [by left|].
     destruct (hlen (l_a s) <? INTERVAL); [by left|]. unfold attempt.
-    destruct (attempt_with _ _ _ _ _ _ _ _ _ _) as [s' out] eqn:E. cbn [fst].
-    rewrite (attempt_with_flag _ _ _ _ _ _ _ _ _ _ E). apply stale_flag_cases.
+    destruct (attempt_with _ _ _ _ _ _ _ _ _ _ _) as [s' out] eqn:E. cbn [fst].
+    rewrite (attempt_with_flag _ _ _ _ _ _ _ _ _ _ _ E). apply stale_flag_cases.
   - unfold attempt.
-    destruct (attempt_with _ _ _ _ _ _ _ _ _ _) as [s' out] eqn:E. cbn [fst].
-    rewrite (attempt_with_flag _ _ _ _ _ _ _ _ _ _ E). apply stale_flag_cases.
+    destruct (attempt_with _ _ _ _ _ _ _ _ _ _ _) as [s' out] eqn:E. cbn [fst].
+    rewrite (attempt_with_flag _ _ _ _ _ _ _ _ _ _ _ E). apply stale_flag_cases.
   - unfold wait_round. destruct (negb (wait_cond s)); [by left|].
     destruct (hlen (l_a s) <? INTERVAL); [by left|]. unfold attempt.
-    destruct (attempt_with _ _ _ _ _ _ _ _ _ _) as [s' out] eqn:E. cbn [fst].
-    rewrite (attempt_with_flag _ _ _ _ _ _ _ _ _ _ E). apply stale_flag_cases.
-  - left. unfold tip_round. cbn [set_ph l_a l_conn l_cache l_banned l_synced l_cache_bl l_flag].
+    destruct (attempt_with _ _ _ _ _ _ _ _ _ _ _) as [s' out] eqn:E. cbn [fst].
+    rewrite (attempt_with_flag _ _ _ _ _ _ _ _ _ _ _ E). apply stale_flag_cases.
+  - left. unfold tip_round. cbn [set_ph l_a l_conn l_cache l_cache_stop l_banned l_synced l_cache_bl l_flag].
     destruct (zlen (afl (l_a s)) =? zlen (abl (l_a s))); [done|].
     destruct (get_uncheckpointed _ _ _) as [bans r]. cbn [do_ban l_conn l_banned].
     destruct r as [| |m]; try done. by destruct (awrite_cf H (l_a s) m) as [a' [?|]].
@@ -368,7 +379,7 @@ Proof. intros [] Hph. constructor; cbn; done. Qed.
 
 Lemma eff_phase_retry s lh lx : linv s -> eff_phase s <> PRetry lh lx.
 Proof.
-  intros Hinv. pose proof (li_phase _ _ _ _ _ Hinv) as Hp. unfold eff_phase.
+  intros Hinv. pose proof (li_phase _ _ _ _ _ _ _ Hinv) as Hp. unfold eff_phase.
   destruct (l_ph s); try done. unfold decide_ph. destruct (negb _); [done|]. by destruct (_ <=? _).
 Qed.
 
@@ -384,12 +395,16 @@ Proof.
     destruct (hlen (l_a s) <? INTERVAL) eqn:El; [injection Hw as <- _; by apply linv_set_ph|].
     unfold attempt in Hw. change (hlen (l_a s)) with (tipH s) in *.
     change (default 0 (last (abl (l_a s)))) with (tipX s) in *.
-    pose proof (attempt_with_flag _ _ _ _ _ _ _ _ _ _ Hw) as Hfl. rewrite Hflag in Hfl. symmetry in Hfl.
-    pose proof (stale_flag_zero _ _ _ (li_cp _ _ _ _ _ Hinv) Hfl) as Hfresh.
+    pose proof (attempt_with_flag _ _ _ _ _ _ _ _ _ _ _ Hw) as Hfl. rewrite Hflag in Hfl. symmetry in Hfl.
+    pose proof (stale_flag_zero _ _ _ (li_cp _ _ _ _ _ _ _ Hinv) Hfl) as Hfresh.
     assert (Ht : INTERVAL <= tipH s) by lia.
     pose proof (lists_iff s d Hinv Hcp Ht Hfresh) as Hiff.
-    eapply (attempt_with_inv s d _ _ _ _ s' out Hinv Hhd Har Hhard Hph Ht eq_refl Hiff); [|exact Hw].
-    right. destruct Hfresh as [-> | ->]; [done|]. by destruct (fst _). }
+    eapply (attempt_with_inv s d _ _ _ _ _ s' out Hinv Hhd Har Hhard Hph Ht eq_refl Hiff); [|exact Hw].
+    right. unfold best. rewrite (li_cp _ _ _ _ _ _ _ Hinv). cbn [snd].
+    destruct (fst (lists_of c s (tipH s) (tipX s) d)) eqn:Ef; [done|].
+    destruct Hfresh as [?|Hf]; [done|]. split; [done|].
+    intros Ho. unfold lists_of in Ef. cbn [fst] in Ef.
+    destruct (refetch_false _ _ _ Ef) as [_ Hst]. rewrite (Hst Ho). unfold best. rewrite (li_cp _ _ _ _ _ _ _ Hinv). done. }
   destruct (eff_phase s) as [|lh lx| |] eqn:Eph.
   - by apply Hwait.
   - by destruct (eff_phase_retry s lh lx Hinv).
